@@ -474,7 +474,7 @@ func (c *FnCtx) mergeIn(b *ssa.BasicBlock) *State {
 		st.epochs = append([]epochRec(nil), ins[0].st.epochs...)
 	} else {
 		c.nfresh++
-		st.epochs = []epochRec{{"", c.nfresh}}
+		st.epochs = []epochRec{{prefix: "", id: c.nfresh}}
 	}
 	st.facts = map[string]bool{}
 	for f := range ins[0].st.facts {
@@ -627,7 +627,13 @@ func (c *FnCtx) execBlock(b *ssa.BasicBlock) {
 			}
 		}
 		for _, p := range li.heapPre {
-			c.havocHeap(st, p)
+			if c.freshFamily(p) {
+				// every write into these families targets an object allocated by this call (checked at
+				// each store and call): what existed at entry still has its entry contents
+				c.havocHeapFreshFrom(st, p, c.entry)
+			} else {
+				c.havocHeap(st, p)
+			}
 		}
 		for _, name := range sortedKeys(pre.heap) {
 			for _, p := range li.heapPre {
@@ -814,6 +820,7 @@ func (c *FnCtx) ghostAsserts(st *State, in ssa.Instruction) {
 
 // execInstr returns true when the block is finished.
 func (c *FnCtx) execInstr(st *State, b *ssa.BasicBlock, in ssa.Instruction) bool {
+	c.curInstr = in
 	c.ghostAsserts(st, in)
 	switch in := in.(type) {
 	case *ssa.DebugRef:
@@ -899,9 +906,7 @@ func (c *FnCtx) execInstr(st *State, b *ssa.BasicBlock, in ssa.Instruction) bool
 	case *ssa.MakeSlice:
 		c.vals[in] = c.execMakeSlice(st, in)
 	case *ssa.MakeMap:
-		r := c.allocRef(st, "map")
-		c.vals[in] = VInt{r}
-		c.note("map operations are abstracted (%s)", c.eng.prog.Fset.Position(in.Pos()))
+		c.vals[in] = c.execMakeMap(st, in)
 	case *ssa.MakeClosure:
 		c.vals[in] = VOpaque{c.declare("closure", sInt)}
 	case *ssa.TypeAssert:
@@ -909,7 +914,7 @@ func (c *FnCtx) execInstr(st *State, b *ssa.BasicBlock, in ssa.Instruction) bool
 	case *ssa.Lookup:
 		c.vals[in] = c.execLookup(st, in)
 	case *ssa.MapUpdate:
-		c.havocHeap(st, "M$")
+		c.execMapUpdate(st, in)
 	case *ssa.Range:
 		c.vals[in] = c.execRange(st, in)
 	case *ssa.Next:
@@ -1562,7 +1567,21 @@ func (c *FnCtx) checkFrame() {
 					continue
 				}
 			}
+			c.frameOnly = true
 			c.staticWrites(in, cells, pre)
+			c.frameOnly = false
+			if call, ok := in.(*ssa.Call); ok && len(c.fc.ModFresh) > 0 {
+				c.frameOnly = true
+				ws := c.callWrites(&call.Call)
+				c.frameOnly = false
+				for _, w := range ws {
+					for _, f := range c.fc.ModFresh {
+						if strings.HasPrefix(w, f) || strings.HasPrefix(f, w) {
+							panic(specErr{fmt.Sprintf("modifies fresh %s: the call %s may write %q into objects that existed before this call", f, callName(&call.Call), w)})
+						}
+					}
+				}
+			}
 		}
 	}
 	var missing []string
